@@ -199,6 +199,7 @@ PROPS = {
                         "the harness's projection of a BMOC (its own 6-line decoder of the raw u64 entries: sentinel bit, flag bit, base-4 path) and BMOCBuilderUnsafe::push / to_bmoc used to build operands"],
         "stages": [
             {"kind": "mc", "module": "MC_Bmoc", "cfg": "MC_Bmoc_plain.cfg", "workers": 6},
+            {"kind": "mc", "module": "MC_BmocAlgo", "cfg": {"quick": "MC_BmocAlgo.cfg", "thorough": "MC_BmocAlgo_thorough.cfg"}, "workers": 6},
             {"kind": "gentrace", "module": "Gen_Bmoc", "cfg": {"quick": "Gen_Bmoc_plain.cfg", "thorough": "Gen_Bmoc_plain.cfg"}, "scenario": "BMOC",
              "trace_module": "Trace_Bmoc", "trace_cfg": "Trace_Bmoc.cfg", "exhaustive": True, "clauses": ["panic", "dmax", "semantics", "canonical", "law_holds", "operand_wellformed"]},
             {"kind": "rec", "scenario": "C07", "count": {"quick": 3000, "thorough": 60000}, "trace_module": "Trace_Bmoc", "trace_cfg": "Trace_Bmoc.cfg",
@@ -208,7 +209,11 @@ PROPS = {
     },
     "C08": {
         "level": "model_checking",
-        "claim": "Same semantics with the three-valued leaf tables (not swaps absent/full, and = min, or = max, xor table). MC_Bmoc checks the laws "
+        "claim": "BmocAlgo.tla transcribes the crate's cursor-based merge loops (not, and, or with not_in_cell_4_or, xor with not_in_cell_4_xor, "
+                 "go_up / go_down / dd_4_go_up, consume_while_overlapped(_and_partial), pack, to_lower_depth), one operator per Rust function, "
+                 "and MC_BmocAlgo checks on all 83 x 83 (249 x 249 thorough) ordered pairs of packed and unpacked BMOCs of the flagged universe "
+                 "that each refines the semantic operator, keeps well-formedness, that pack leaves no four full siblings and that or / xor of "
+                 "plain MOCs are canonical. Same semantics with the three-valued leaf tables (not swaps absent/full, and = min, or = max, xor table). MC_Bmoc checks the laws "
                  "that survive partial flags on all 81x81 pairs of the flagged universe over histories; TLC enumerates all 6561 ordered pairs "
                  "(dmax mixes in thorough), executed on the crate and validated semantically (several cell lists denote the same map, so no "
                  "canonical form is demanded); random mixes of flags and depths up to 29 are validated register-style.",
@@ -217,6 +222,7 @@ PROPS = {
                         "the harness's projection of a BMOC (its own 6-line decoder of the raw u64 entries: sentinel bit, flag bit, base-4 path) and BMOCBuilderUnsafe::push / to_bmoc used to build operands"],
         "stages": [
             {"kind": "mc", "module": "MC_Bmoc", "cfg": "MC_Bmoc_flags.cfg", "workers": 6},
+            {"kind": "mc", "module": "MC_BmocAlgo", "cfg": {"quick": "MC_BmocAlgo.cfg", "thorough": "MC_BmocAlgo_thorough.cfg"}, "workers": 6},
             {"kind": "gentrace", "module": "Gen_Bmoc", "cfg": {"quick": "Gen_Bmoc_flags.cfg", "thorough": "Gen_Bmoc_flags_thorough.cfg"}, "scenario": "BMOC",
              "trace_module": "Trace_Bmoc", "trace_cfg": "Trace_Bmoc.cfg", "exhaustive": True, "clauses": ["panic", "dmax", "semantics", "operand_wellformed"]},
             {"kind": "rec", "scenario": "C08", "count": {"quick": 3000, "thorough": 60000}, "trace_module": "Trace_Bmoc", "trace_cfg": "Trace_Bmoc.cfg",
